@@ -130,6 +130,65 @@ def locks_in_cone(prog, body_id, seen=None):
     return out
 
 
+def closure_arg_locks(prog, callee_body):
+    """locks acquired by closures that callers hand to `callee_body` (a method that invokes a closure parameter)"""
+    out = []
+    root = callee_body.root or callee_body.id
+    for cid, cb in prog.facts.bodies.items():
+        if cb.crate != "lib":
+            continue
+        ci = prog.info(cid)
+        for cbb, t in ci.calls(lambda c: prog.qual(cb, c.target) == root):
+            for a in t.args:
+                o = ci.trace(a)
+                if o.kind == "agg" and ci.agg_at(o.data).j.get("ak") == "closure":
+                    clo = prog.qual(cb, ci.agg_at(o.data).j["def"])
+                    out.extend(locks_in_cone(prog, clo))
+    return out
+
+
+@rule("C07", "R07.6", "no mailbox permit is held while waiting for another actor (hold-and-wait on mailbox capacity)", floor=1)
+def r07_6(prog, out):
+    n = 0
+    for b in prog.facts.lib_bodies():
+        if not b.coroutine:
+            continue
+        bi = prog.info(b.id)
+        permits = [l for l, d in enumerate(b.locals) if b.types[d["t"]].startswith("tokio::sync::mpsc::Permit<") or b.types[d["t"]].startswith("tokio::sync::mpsc::OwnedPermit<")]
+        for a in bi.awaits:
+            cls = await_class(prog, bi, a)
+            if cls not in ("mpsc_send", "oneshot_recv", "local"):
+                continue
+            n += 1
+        for pl in permits:
+            for (dbb, di) in bi.defs.get(pl, []):
+                live = prog.guard_live_blocks(b.id, dbb if di == -1 else dbb, pl) if di == -1 else set()
+                if di != -1:
+                    # permit extracted from the Result of the awaited reserve(): alive from here to its use / drop
+                    start = dbb
+                    live = set()
+                    stack = [start]
+                    uses = {u[0] for u in bi.uses_of_local(pl) if u[1] == -1}
+                    while stack:
+                        x = stack.pop()
+                        if x in live:
+                            continue
+                        live.add(x)
+                        if x in uses or (b.blocks[x].term.k == "drop" and b.blocks[x].term.place.local == pl):
+                            continue
+                        stack.extend(bi.cfg.succ[x])
+                for a in bi.awaits:
+                    if a.yield_bb in live and await_class(prog, bi, a) in ("mpsc_send", "oneshot_recv", "local"):
+                        actorish = await_class(prog, bi, a) != "local" or any(
+                            await_class(prog, prog.info(x), y) in ("mpsc_send", "oneshot_recv") for x in prog.cone(prog.body_of_type(b, a.fut_ty) or b.id, follow=("call", "closure", "poll"))
+                            if prog.info(x) is not None for y in prog.info(x).awaits)
+                        if actorish:
+                            out.violation("%s:permit-held" % prog.short(b.id), bi.loc(a.poll_bb), "a reserved slot of an actor mailbox (%s) is held while this task waits for another "
+                                          "actor: with the mailbox's other slots taken the same way, the actor that must answer may itself be waiting for capacity of that mailbox"
+                                          % short_ty(b.local_ty(pl)))
+    out.holds("permits", "", "%d waits on actors inspected; no mailbox permit is alive across any of them" % n, nontrivial=n > 0)
+
+
 @rule("C07", "R07.3", "lock acquisition order is acyclic and never re-entrant (G8b)", floor=5)
 def r07_3(prog, out):
     order = {}   # (L1, L2) -> witness
@@ -142,8 +201,21 @@ def r07_3(prog, out):
             nested = []
             for x in sorted(live):
                 tt = b.blocks[x].term
+                if tt.k == "call" and (tt.callee is None or (tt.callee.path.startswith("std::ops::Fn") and not tt.callee.res_local)):
+                    # a caller-supplied closure runs while the lock is held: whatever the callers pass in is nested under it
+                    for (l2, ib, ibb) in closure_arg_locks(prog, b):
+                        nested.append((l2, ib, ibb))
+                    continue
                 if tt.k != "call" or tt.callee is None:
                     continue
+                # a closure *parameter* handed to a library adapter (iter().filter_map(f).collect()) also runs under the lock
+                for a in tt.args:
+                    o = bi.trace(a)
+                    if o.kind == "param" and isinstance(o.data, int) and not o.path:
+                        pty = b.local_ty(o.data)
+                        if pty.startswith("impl ") or (pty.isidentifier() and pty[:1].isupper() and len(pty) <= 2) or "Fn(" in pty or "FnMut(" in pty or "FnOnce(" in pty:
+                            for (l2, ib, ibb) in closure_arg_locks(prog, b):
+                                nested.append((l2, ib, ibb))
                 if tt.callee.path in L.LOCK_ACQUIRE:
                     nested.append((lock_identity(bi, tt), b.id, x))
                 elif tt.callee.res_local or tt.callee.local:
